@@ -10,7 +10,57 @@ let rec rep u k = if k = 0 then [] else u @ rep u (k - 1)
 let rec last = function [x] -> x | _ :: t -> last t | [] -> failwith "last"
 let nth_opt l i = try Some (List.nth l i) with _ -> None
 
+(* ---- tok object histories: "tokobj S0 ; op ; op ..." (see harness/c12.c).  Each operation is one step of the
+   extracted tok_run; the extracted ideal object spec_run is stepped next to it (DRIVER-ERROR:model!=spec on any
+   difference in state or output - the history theorem says there is none).  While the quote characters are the
+   defaults an evaluation also prints the model of split on the current source and separators. ---- *)
+let src_arg h = if h = "N" then None else Some (zbytes_of_hex h)
+let byte_arg h = z_of_int (int_of_string ("0x" ^ h))
+let show_toks = function None -> "U" | Some l -> show_tokens l
+let rec parse_ops = function
+  | [] -> []
+  | ";" :: "src" :: h :: r -> TSetSrc (src_arg h) :: parse_ops r
+  | ";" :: "sep" :: h :: r -> TSetSep (dset h) :: parse_ops r
+  | ";" :: "q" :: h :: r -> TSetQuote (byte_arg h) :: parse_ops r
+  | ";" :: "dq" :: h :: r -> TSetDquote (byte_arg h) :: parse_ops r
+  | ";" :: "esc" :: h :: r -> TSetEscape (byte_arg h) :: parse_ops r
+  | ";" :: "eval" :: r -> TEval :: parse_ops r
+  | ";" :: "dup" :: r -> TDup :: parse_ops r
+  | ";" :: "fork" :: r -> TFork :: parse_ops r
+  | ";" :: "done" :: r -> TDone :: parse_ops r
+  | _ -> failwith "bad-case"
+let run_tokobj s0 rest =
+  let ops = parse_ops rest in
+  let o = ref (tok_new (src_arg s0)) in
+  let parts = ref [] and err = ref None in
+  List.iter (fun op ->
+      if !err = None then
+        match tok_run !o [op] with
+        | Fault x -> err := Some ("FAULT:" ^ fault_name x)
+        | Ok (o', outs) ->
+          if spec_run !o [op] <> (o', outs) then err := Some "DRIVER-ERROR:model!=spec"
+          else begin
+            List.iter (fun out ->
+                let txt = match out with
+                  | OToks t -> "D " ^ show_toks t
+                  | OEval None -> "F"
+                  | OEval (Some l) ->
+                    let base = show_tokens l in
+                    (match !o.t_src with
+                     | Some sb when !o.t_cfg = default_cfg ->
+                       (match split !o.t_sep (cstr_of sb) with
+                        | Fault x -> err := Some ("FAULT:" ^ fault_name x); base
+                        | Ok r -> base ^ " / " ^ show_tokens (opt_list r))
+                     | _ -> base) in
+                parts := txt :: !parts) outs;
+            o := o'
+          end) ops;
+  match !err with
+  | Some e -> e
+  | None -> if !parts = [] then "-" else String.concat " ; " (List.rev !parts)
+
 let rec run = function
+  | "tokobj" :: s0 :: rest -> run_tokobj s0 rest
   | ["all"; s] ->
     let parts = List.map (fun (op, d) -> run [op; d; s])
         [("split","N");("split","3a");("split","203a");("split","6162");
